@@ -231,6 +231,41 @@ Theorem partial_derivative_leaf_good : forall (c dx : R) (n : nat) (m : meth) (p
   leaf_good (LPDeriv (repeat c n) (repeat c n) [n] 0 m p dx).
 Proof. exact leaf_good_pderiv_1d. Qed.
 
+(* ------------------------------------------------------------------------
+   N-d operators, EVERY shape (lifting C13.pderiv_adjoint_nd / gradient_adjoint_nd /
+   divergence_adjoint_nd / laplacian_selfadjoint_nd and Lib.AxisR.along_adjoint into the weighted inner
+   product of a uniformly weighted space: all weights equal c, e.g. uniform_discr without boundary nodes).
+   [axis_ok shape m p ax]: axis length >= 2 and both table rows in range on that axis. *)
+From Verif Require Import Lib.Axis C13.ProofsNd C13.ProofsLap C05.ProofsNd.
+Theorem partial_derivative_nd_adjoint_partial : forall (c dx : R) (shape : list nat) (ax : nat) (m : meth) (p : pmode),
+  (ax < length shape)%nat -> axis_ok shape m p ax -> dx <> 0%R ->
+  leaf_ok (LPDeriv (repeat c (prodn shape)) (repeat c (prodn shape)) shape ax m p dx).
+Proof. exact leaf_ok_pderiv_nd. Qed.
+Print Assumptions partial_derivative_nd_adjoint_partial.
+(* Gradient: space -> space^ndim and Divergence: space^ndim -> space (flat concatenation of the components) *)
+Theorem gradient_divergence_nd_adjoint_partial : forall (c : R) (shape : list nat) (m : meth) (p : pmode) (dxs : list R),
+  (0 < length shape)%nat -> length dxs = length shape ->
+  (forall i, (i < length shape)%nat -> axis_ok shape m p i) -> Forall (fun dx => dx <> 0%R) dxs ->
+  leaf_ok (LGrad (repeat c (prodn shape)) (repeat c (length shape * prodn shape)) shape m p dxs) /\
+  leaf_ok (LDiv (repeat c (length shape * prodn shape)) (repeat c (prodn shape)) shape
+                (adj_method m) (adj_padding p) dxs).
+Proof. exact leaf_ok_gradient_divergence_nd. Qed.
+Print Assumptions gradient_divergence_nd_adjoint_partial.
+(* Laplacian with the pad modes its constructor accepts ([lap_mode]): self-adjoint, as the code claims *)
+Theorem laplacian_nd_adjoint_partial : forall (c : R) (shape : list nat) (p : pmode) (dxs : list R),
+  lap_mode p = true -> length dxs = length shape ->
+  (forall i, (i < length shape)%nat -> (2 <= nth i shape 0)%nat) -> Forall (fun dx => dx <> 0%R) dxs ->
+  leaf_ok (LLap (repeat c (prodn shape)) (repeat c (prodn shape)) shape p dxs).
+Proof. exact leaf_ok_laplacian_nd. Qed.
+Print Assumptions laplacian_nd_adjoint_partial.
+(* MatrixOperator(M, domain, axis=ax) on an N-d tensor space: conj-transpose along the same axis *)
+Theorem matrix_axis_adjoint_partial : forall (c : R) (shape : list nat) (ax : nat) (M : list (list R)),
+  (ax < length shape)%nat -> ProofsLeaf.rect (nth ax shape 0%nat) M ->
+  leaf_ok (LMatrixAx (repeat c (prodn shape))
+                     (repeat c (prodn (firstn ax shape ++ length M :: skipn (S ax) shape))) shape ax M).
+Proof. exact leaf_ok_matrix_axis. Qed.
+Print Assumptions matrix_axis_adjoint_partial.
+
 (* Real <-> complex operators, realified (C^n = R^2n as re ++ im with weights w ++ w, so that
    [cinner] is the REAL PART of the complex inner product): RealPart/ImagPart of a real and of a
    complex space, ComplexEmbedding(s) of a complex space (any s, any weights) and of a real space in all
